@@ -20,7 +20,7 @@ fn classify(cfg: ModeCfg, map: &Beatmap, what: &str) -> String {
 
 fn check_case(l: &mut Local<'_>, cfg: ModeCfg, map: &Beatmap, settings: &[Setting], desc: &dyn Fn() -> String) {
     let dst_mode = gen::game_mode(cfg.dst);
-    for s in settings {
+    for (si, s) in settings.iter().enumerate() {
         let d: Difficulty = s.difficulty(dst_mode);
         let Ok(mut g) = api::gradual(d.clone(), map, cfg.dst) else {
             l.violation("ctor_err", || format!("{}\nsetting={s:?}\ngradual constructor failed", desc()));
@@ -81,6 +81,44 @@ fn check_case(l: &mut Local<'_>, cfg: ModeCfg, map: &Beatmap, settings: &[Settin
             }
             None => {}
         }
+        // the Difficulty handed to the constructor may itself carry passed_objects(k). What the calculator then covers is not
+        // part of the property (osu!, taiko and catch ignore k, mania stops after k objects — the property quantifies over
+        // mods, rates and overrides, with passed_objects as the prefix parameter), but whatever it covers it must produce as
+        // many values as it announces and its i-th value must still be the one-shot passed_objects(i) value, i.e. the value
+        // of the unlimited calculator
+        let n_obj = map.hit_objects.len() as u32;
+        // (first setting of the menu only: the limit is orthogonal to mods, rates and overrides)
+        let mut ks = if si == 0 { vec![0u32, 1, 2, n_obj.saturating_sub(1), n_obj + 1] } else { Vec::new() };
+        ks.sort_unstable();
+        ks.dedup();
+        for k in ks {
+            let dk = d.clone().passed_objects(k);
+            let Ok(mut g) = api::gradual(dk, map, cfg.dst) else {
+                l.violation("ctor_err", || format!("{}\nsetting={s:?} passed_objects({k})\ngradual constructor failed", desc()));
+                return;
+            };
+            let announced = g.len();
+            let mut vk: Vec<DifficultyAttributes> = Vec::new();
+            while let Some(v) = g.next() {
+                vk.push(v);
+                if vk.len() > bound {
+                    break;
+                }
+            }
+            l.states(vk.len() as u64 + 1);
+            l.checked(2 + vk.len() as u64);
+            if vk.len() != announced {
+                let class = classify(cfg, map, "limited_len");
+                l.violation(&class, || format!("{}\nsetting={s:?} + passed_objects({k}) handed to the gradual constructor\nannounced len()={announced} but produced {} values", desc(), vk.len()));
+                return;
+            }
+            if vk.len() > vals.len() || vk.iter().zip(&vals).any(|(a, b)| !same(a, b)) {
+                let class = classify(cfg, map, "limited_prefix");
+                let i = vk.iter().zip(&vals).position(|(a, b)| !same(a, b)).unwrap_or(vals.len());
+                l.violation(&class, || format!("{}\nsetting={s:?} + passed_objects({k}) handed to the gradual constructor\n{} values, the unlimited calculator yields {}; first difference at value #{}\n limited  : {:?}\n unlimited: {:?}", desc(), vk.len(), vals.len(), i + 1, vk.get(i), vals.get(i)));
+                return;
+            }
+        }
     }
 }
 
@@ -89,7 +127,7 @@ fn main() {
     ctx.rule(
         "case = (mode configuration, map text generated by the shape grammar); every case runs the full gradual walk for each setting of the menu and compares every value with the one-shot passed_objects(i) calculation; non-trivial = at least one compared value has stars > 0",
     );
-    ctx.assume("maps are those generated by the grammar bound stated in coverage.universes; Difficulty handed to the gradual constructor carries no passed_objects");
+    ctx.assume("maps are those generated by the grammar bound stated in coverage.universes; a Difficulty that itself carries passed_objects(k) is handed to the gradual constructor for k in {0, 1, 2, N-1, N+1}: only len() == values produced and value_i == one-shot passed_objects(i) are required of it, not where it ends");
 
     // cheapest universes first (the wall cap may only ever cut the largest one short)
     // fixture prefixes: start from non-initial shapes too
